@@ -245,12 +245,13 @@ theorem good_many {D m : Nat} {d : Dec α} (hD : 1 ≤ D) (h : Good D m d) (n : 
 /-- the guarded vector: `k` items are booked only if `k * minsz` bytes remain, and every item
 consumes at least `minsz` beyond what it books itself -/
 theorem good_vec {D m minsz : Nat} {d : Dec α} (e : Err) (k : Nat) (hD : 1 ≤ D)
-    (h : Good D m d) (hm : minsz ≤ m) :
+    (h : Good D m d) (hm : minsz ≤ m) (h1 : 1 ≤ minsz) :
     Good (D + 1) 0 (vec e minsz d k) := by
   intro bs
   rw [vec, bind_def]
+  have hmax : max minsz 1 = minsz := Nat.max_eq_left h1
   by_cases hk : k * minsz ≤ bs.length
-  · simp only [reserve, hk, if_true]
+  · simp only [reserve, hk, if_true, hmax]
     have a := good_many hD h k bs
     cases hv : (many d k bs).val with
     | error e =>
@@ -285,10 +286,10 @@ theorem tight_bind {d : Dec α} {f : α → Dec β} (h1 : Tight d) (h2 : ∀ a, 
   rw [bind_def]
   have a1 := h1 bs
   cases hv : (d bs).val with
-  | error e => simpa only [hv] using a1
+  | error e => exact a1
   | ok a =>
-    simp only [hv]
     have a2 := h2 a (d bs).rest
+    simp only []
     omega
 
 theorem tight_uN (k : Nat) : Tight (uN k) := tight_bind (tight_take k) (fun _ => tight_pure _)
@@ -298,7 +299,7 @@ theorem tight_takeOwned (n : Nat) : Tight (takeOwned n) := by
   simp only [takeOwned, bind_def, reserve, take]
   by_cases h : n ≤ bs.length
   · have h' : ¬ bs.length < n := by omega
-    simp only [Nat.mul_one, h, h', if_true, if_false, List.length_drop]
+    simp only [Nat.mul_one, Nat.max_self, h, h', if_true, if_false, List.length_drop]
     omega
   · simp [h]
 
@@ -638,5 +639,356 @@ theorem run_syncMsg (m : SyncMsg) (rest : Bytes) (h : WFSyncMsg m) :
       (fun e he r => run_requestEntry e r (h.2 e he))
     simp only [syncMsg, syncMsgP, encSyncMsg, List.append_assoc, run_bind, run_tag0,
       run_u32 4 _ (by omega), run_u32 _ _ h.1, hv, run_pure]
+
+/-! ### reservation accounting of every decoder
+
+`Good D m d` with `m` = what `minimum_bytes_needed()` promises for the type (or more) and `D` = one
+more than the nesting depth of guarded collections below it. -/
+
+theorem good_range (D : Nat) (hD : 1 ≤ D) : Good D 16 range := by
+  have := good_bind hD (good_u64 D hD) (fun lo => good_bind hD (good_u64 D hD)
+    (fun hi => good_pure D (lo, hi)))
+  exact this
+
+theorem good_actor (D : Nat) : Good D 16 actor := good_take D 16
+
+theorem good_optTs (D : Nat) (hD : 1 ≤ D) : Good D 1 optTs := good_opt hD (good_u64 D hD)
+
+theorem good_rangeVec : Good 2 8 rangeVec := by
+  have := good_bind (D := 2) (by omega) (good_u64 2 (by omega))
+    (fun n => good_vec .invalid n (by omega) (good_range 1 (by omega)) (Nat.le_refl 16) (by omega))
+  exact this
+
+theorem good_tag0 (D : Nat) (hD : 1 ≤ D) : Good D 4 tag0 := by
+  have := good_bind (m2 := 0) hD (good_u32 D hD) (fun t => (by
+    by_cases h : t = 0
+    · rw [if_pos h]; exact good_pure D ()
+    · rw [if_neg h]; exact good_fail D 0 _ : Good D 0 (if t = 0 then pure () else fail .invalid)))
+  exact this
+
+theorem good_sqliteValue (D : Nat) (hD : 1 ≤ D) : Good D 1 sqliteValue := by
+  have := good_bind (m2 := 0) hD (good_u8 D hD) (fun t => (by
+    split
+    · exact good_pure D _
+    · exact good_weaken (Nat.zero_le _) (Nat.le_refl _) (good_map _ hD (good_i64 D hD))
+    · exact good_weaken (Nat.zero_le _) (Nat.le_refl _) (good_map _ hD (good_u64 D hD))
+    · exact good_weaken (Nat.zero_le _) (Nat.le_refl _) (good_map _ hD (good_str D hD))
+    · exact good_weaken (Nat.zero_le _) (Nat.le_refl _) (good_map _ hD (good_bytes D hD))
+    · exact good_fail D 0 _ :
+    Good D 0 (match t with
+      | 0 => pure Val.null
+      | 1 => do let v ← i64; pure (Val.int v)
+      | 2 => do let b ← u64; pure (Val.real b)
+      | 3 => do let s ← str; pure (Val.text s)
+      | 4 => do let b ← bytes; pure (Val.blob b)
+      | _ => fail .invalid)))
+  exact this
+
+/-- `Change` consumes at least 61 bytes beyond what it books (≥ the 37 the derive promises) -/
+theorem good_change (D : Nat) (hD : 1 ≤ D) : Good D 61 change := by
+  unfold change strBorrowed
+  refine good_weaken (m := 4 + (4 + (4 + (1 + (8 + (8 + (8 + (16 + (8 + 0)))))))))
+    (by omega) (Nat.le_refl D) ?_
+  exact good_bind hD (good_str D hD) (fun table =>
+    good_bind hD (good_bytes D hD) (fun pk =>
+    good_bind hD (good_str D hD) (fun cid =>
+    good_bind hD (good_sqliteValue D hD) (fun val =>
+    good_bind hD (good_i64 D hD) (fun colVersion =>
+    good_bind hD (good_u64 D hD) (fun dbVersion =>
+    good_bind hD (good_u64 D hD) (fun seq =>
+    good_bind hD (good_take D 16) (fun siteId =>
+    good_bind hD (good_i64 D hD) (fun cl =>
+    good_pure D (Change.mk table pk cid val colVersion dbVersion seq siteId cl))))))))))
+
+theorem good_changeset : Good 2 2 changeset := by
+  have hD : 1 ≤ 2 := by omega
+  have := good_bind (m2 := 1) hD (good_u8 2 hD) (fun t => (by
+    split
+    · exact good_weaken (by omega) (Nat.le_refl _) (good_bind hD (good_range 2 hD) (fun vs =>
+        good_bind hD (good_optTs 2 hD) (fun ts => good_pure 2 (Changeset.empty vs ts))))
+    · exact good_weaken (by omega) (Nat.le_refl _) (good_bind hD (good_u64 2 hD) (fun version =>
+        good_bind hD (good_u32 2 hD) (fun n =>
+        good_bind hD (good_vec .eof n (by omega) (good_change 1 (by omega))
+          (by show changeMinBytes ≤ 61; decide) (by show 1 ≤ changeMinBytes; decide)) (fun changes =>
+        good_bind hD (good_range 2 hD) (fun seqs =>
+        good_bind hD (good_u64 2 hD) (fun lastSeq =>
+        good_bind hD (good_u64 2 hD) (fun ts =>
+        good_pure 2 (Changeset.full version changes seqs lastSeq ts))))))))
+    · exact good_weaken (by omega) (Nat.le_refl _) (good_bind hD good_rangeVec (fun vs =>
+        good_bind hD (good_u64 2 hD) (fun ts => good_pure 2 (Changeset.emptySet vs ts))))
+    · exact good_fail 2 1 _ :
+    Good 2 1 (match t with
+      | 0 => do let vs ← range; let ts ← optTs; pure (Changeset.empty vs ts)
+      | 1 => do
+        let version ← u64
+        let n ← u32
+        let changes ← vec .eof changeMinBytes change n
+        let seqs ← range
+        let lastSeq ← u64
+        let ts ← u64
+        pure (Changeset.full version changes seqs lastSeq ts)
+      | 2 => do let vs ← rangeVec; let ts ← u64; pure (Changeset.emptySet vs ts)
+      | _ => fail .invalid)))
+  exact this
+
+theorem good_changeV1 : Good 2 18 changeV1 := by
+  have := good_bind (D := 2) (by omega) (good_actor 2) (fun a =>
+    good_bind (by omega) good_changeset (fun c => good_pure 2 (ChangeV1.mk a c)))
+  exact this
+
+/-- `SyncNeedV1` consumes at least the 2 bytes its `minimum_bytes_needed()` promises -/
+theorem good_syncNeed : Good 2 2 syncNeed := by
+  have hD : 1 ≤ 2 := by omega
+  have := good_bind (m2 := 1) hD (good_u8 2 hD) (fun t => (by
+    split
+    · exact good_weaken (by omega) (Nat.le_refl _) (good_map _ hD (good_range 2 hD))
+    · exact good_weaken (by omega) (Nat.le_refl _) (good_bind hD (good_u64 2 hD) (fun version =>
+        good_map _ hD good_rangeVec))
+    · exact good_map _ hD (good_optTs 2 hD)
+    · exact good_fail 2 1 _ :
+    Good 2 1 (match t with
+      | 0 => do let vs ← range; pure (SyncNeed.full vs)
+      | 1 => do let version ← u64; let seqs ← rangeVec; pure (SyncNeed.part version seqs)
+      | 2 => do let ts ← optTs; pure (SyncNeed.empty ts)
+      | _ => fail .invalid)))
+  exact this
+
+theorem good_headEntry (D : Nat) (hD : 1 ≤ D) : Good D 24 headEntry := by
+  have := good_bind hD (good_actor D) (fun a => good_bind hD (good_u64 D hD)
+    (fun v => good_pure D (a, v)))
+  exact this
+
+theorem good_needEntry : Good 2 24 needEntry := by
+  have := good_bind (D := 2) (by omega) (good_actor 2) (fun a =>
+    good_bind (by omega) good_rangeVec (fun rs => good_pure 2 (a, rs)))
+  exact this
+
+theorem good_versionEntry : Good 2 16 versionEntry := by
+  have := good_bind (D := 2) (by omega) (good_u64 2 (by omega)) (fun v =>
+    good_bind (by omega) good_rangeVec (fun rs => good_pure 2 (v, rs)))
+  exact this
+
+theorem good_partialEntry : Good 3 24 partialEntry := by
+  have hD : 1 ≤ 3 := by omega
+  have := good_bind hD (good_actor 3) (fun a =>
+    good_bind hD (good_u64 3 hD) (fun n =>
+    good_bind hD (good_vec .invalid n (by omega) good_versionEntry (Nat.le_refl 16) (by omega)) (fun vs =>
+    good_pure 3 (a, vs))))
+  exact this
+
+theorem good_syncState : Good 4 37 syncState := by
+  have hD : 1 ≤ 4 := by omega
+  have := good_bind hD (good_actor 4) (fun actorId =>
+    good_bind hD (good_u32 4 hD) (fun nh =>
+    good_bind hD (good_weaken (Nat.zero_le _) (Nat.le_refl _)
+      (good_many hD (good_headEntry 4 hD) nh)) (fun heads =>
+    good_bind hD (good_u64 4 hD) (fun nn =>
+    good_bind hD (good_weaken (Nat.le_refl 0) (by omega : 3 ≤ 4)
+      (good_vec .invalid nn (by omega) good_needEntry (Nat.le_refl 24) (by omega))) (fun need =>
+    good_bind hD (good_u64 4 hD) (fun np =>
+    good_bind hD (good_vec .invalid np (by omega) good_partialEntry (Nat.le_refl 24) (by omega))
+      (fun partialNeed =>
+    good_bind hD (good_optTs 4 hD) (fun ts =>
+    good_pure 4 (SyncState.mk actorId heads need partialNeed ts)))))))))
+  exact good_weaken (by omega) (Nat.le_refl _) this
+
+theorem tight_u16 : Tight u16 := tight_uN 2
+
+theorem tight_traceCtx : Tight traceCtx :=
+  tight_bind (tight_opt tight_str) (fun _ => tight_bind (tight_opt tight_str) (fun _ => tight_pure _))
+
+theorem good_uniPayload : Good 2 30 uniPayload := by
+  have hD : 1 ≤ 2 := by omega
+  have := good_bind hD (good_tag0 2 hD) (fun _ =>
+    good_bind hD (good_tag0 2 hD) (fun _ =>
+    good_bind hD (good_tag0 2 hD) (fun _ =>
+    good_bind hD good_changeV1 (fun c =>
+    good_bind hD (tight_good 2 hD (tight_defaultOnEof 0 tight_u16)) (fun cl =>
+    good_pure 2 (UniPayload.mk c cl))))))
+  exact this
+
+theorem good_biPayload : Good 2 24 biPayload := by
+  have hD : 1 ≤ 2 := by omega
+  have := good_bind hD (good_tag0 2 hD) (fun _ =>
+    good_bind hD (good_tag0 2 hD) (fun _ =>
+    good_bind hD (good_actor 2) (fun a =>
+    good_bind hD (tight_good 2 hD (tight_defaultOnEof ⟨none, none⟩ tight_traceCtx)) (fun t =>
+    good_bind hD (tight_good 2 hD (tight_defaultOnEof 0 tight_u16)) (fun cl =>
+    good_pure 2 (BiPayload.mk a t cl))))))
+  exact this
+
+/-- a request entry, provided `SyncNeedV1` declares a minimum of at most the 2 bytes every need
+really takes -/
+theorem good_requestEntry (needMin : Nat) (h : needMin ≤ 2) (h1 : 1 ≤ needMin) :
+    Good 3 20 (requestEntry needMin) := by
+  have hD : 1 ≤ 3 := by omega
+  have := good_bind hD (good_actor 3) (fun a =>
+    good_bind hD (good_u32 3 hD) (fun n =>
+    good_bind hD (good_vec .eof n (by omega) good_syncNeed h h1) (fun ns =>
+    good_pure 3 (a, ns))))
+  exact this
+
+theorem good_syncMsgP (needMin : Nat) (h : needMin ≤ 2) (h1 : 1 ≤ needMin) :
+    Good 4 8 (syncMsgP needMin) := by
+  have hD : 1 ≤ 4 := by omega
+  have := good_bind hD (good_tag0 4 hD) (fun _ =>
+    good_bind (m2 := 0) hD (good_u32 4 hD) (fun t => (by
+    split
+    · exact good_weaken (by omega) (Nat.le_refl _) (good_map _ hD good_syncState)
+    · exact good_weaken (by omega) (by omega) (good_map _ (by omega : 1 ≤ 2) good_changeV1)
+    · exact good_weaken (by omega) (Nat.le_refl _) (good_map _ hD (good_u64 4 hD))
+    · exact good_weaken (by omega) (Nat.le_refl _) (good_bind (m2 := 0) hD (good_u32 4 hD) (fun r =>
+        (by
+          by_cases hr : r < 2
+          · rw [if_pos hr]; exact good_pure 4 _
+          · rw [if_neg hr]; exact good_fail 4 0 _ :
+          Good 4 0 (if r < 2 then pure (SyncMsg.rejection r) else fail .invalid))))
+    · exact good_weaken (by omega) (Nat.le_refl _) (good_bind hD (good_u32 4 hD) (fun n =>
+        good_map _ hD (good_vec .eof n (by omega) (good_requestEntry needMin h h1)
+          (by show requestEntryMinBytes ≤ 20; decide) (by show 1 ≤ requestEntryMinBytes; decide))))
+    · exact good_fail 4 0 _ :
+    Good 4 0 (match t with
+      | 0 => do let s ← syncState; pure (SyncMsg.state s)
+      | 1 => do let c ← changeV1; pure (SyncMsg.changeset c)
+      | 2 => do let ts ← u64; pure (SyncMsg.clock ts)
+      | 3 => do
+        let r ← u32
+        if r < 2 then pure (SyncMsg.rejection r) else fail .invalid
+      | 4 => do
+        let n ← u32
+        let es ← vec .eof requestEntryMinBytes (requestEntry needMin) n
+        pure (SyncMsg.request es)
+      | _ => fail .invalid))))
+  exact this
+
+/-- what `Good` says about the booked bytes, on both paths -/
+theorem good_alloc_le {D m : Nat} {d : Dec α} (hD : 1 ≤ D) (h : Good D m d) (bs : Bytes) :
+    (d bs).alloc ≤ D * bs.length := by
+  have := h bs
+  cases hv : (d bs).val with
+  | error e => simpa only [hv] using this
+  | ok a =>
+    simp only [hv] at this
+    have : bs.length ≤ D * bs.length := Nat.le_mul_of_pos_left _ hD
+    omega
+
+/-! ### decoded text is valid UTF-8 -/
+
+theorem run_bind_ok {d : Dec α} {f : α → Dec β} {bs r : Bytes} {b : β}
+    (h : Dec.run (d >>= f) bs = (.ok b, r)) :
+    ∃ a r', Dec.run d bs = (.ok a, r') ∧ Dec.run (f a) r' = (.ok b, r) := by
+  rw [run_bind] at h
+  cases hd : Dec.run d bs with
+  | mk v r' =>
+    rw [hd] at h
+    cases v with
+    | error e => simp at h
+    | ok a => exact ⟨a, r', rfl, h⟩
+
+theorem run_pure_ok {a b : α} {bs r : Bytes} (h : Dec.run (pure a : Dec α) bs = (.ok b, r)) :
+    b = a := by
+  simp only [run_pure, Prod.mk.injEq, Except.ok.injEq] at h
+  exact h.1.symm
+
+theorem str_valid {bs b r : Bytes} (h : Dec.run str bs = (.ok b, r)) : validUtf8 b = true := by
+  obtain ⟨n, r1, _, h⟩ := run_bind_ok h
+  obtain ⟨x, r2, _, h⟩ := run_bind_ok h
+  by_cases hv : validUtf8 x = true
+  · rw [if_pos hv] at h
+    rw [run_pure_ok h]; exact hv
+  · rw [if_neg hv] at h
+    simp at h
+
+theorem sqliteValue_valid {bs r : Bytes} {v : Val} (h : Dec.run sqliteValue bs = (.ok v, r)) :
+    ValTextValid v := by
+  obtain ⟨t, r1, _, h⟩ := run_bind_ok h
+  split at h
+  · rw [run_pure_ok h]; trivial
+  · obtain ⟨x, _, _, h⟩ := run_bind_ok h; rw [run_pure_ok h]; trivial
+  · obtain ⟨x, _, _, h⟩ := run_bind_ok h; rw [run_pure_ok h]; trivial
+  · obtain ⟨x, _, hs, h⟩ := run_bind_ok h; rw [run_pure_ok h]; exact str_valid hs
+  · obtain ⟨x, _, _, h⟩ := run_bind_ok h; rw [run_pure_ok h]; trivial
+  · simp at h
+
+theorem change_valid {bs r : Bytes} {c : Change} (h : Dec.run change bs = (.ok c, r)) :
+    ChangeTextValid c := by
+  obtain ⟨table, _, h1, h⟩ := run_bind_ok h
+  obtain ⟨pk, _, _, h⟩ := run_bind_ok h
+  obtain ⟨cid, _, h3, h⟩ := run_bind_ok h
+  obtain ⟨val, _, h4, h⟩ := run_bind_ok h
+  obtain ⟨_, _, _, h⟩ := run_bind_ok h
+  obtain ⟨_, _, _, h⟩ := run_bind_ok h
+  obtain ⟨_, _, _, h⟩ := run_bind_ok h
+  obtain ⟨_, _, _, h⟩ := run_bind_ok h
+  obtain ⟨_, _, _, h⟩ := run_bind_ok h
+  rw [run_pure_ok h]
+  exact ⟨str_valid h1, str_valid h3, sqliteValue_valid h4⟩
+
+theorem many_all {d : Dec α} {P : α → Prop}
+    (hd : ∀ bs a r, Dec.run d bs = (.ok a, r) → P a) :
+    ∀ (n : Nat) (bs r : Bytes) (as : List α), Dec.run (many d n) bs = (.ok as, r) →
+      ∀ a ∈ as, P a := by
+  intro n
+  induction n with
+  | zero =>
+    intro bs r as h
+    simp only [many] at h
+    rw [run_pure_ok h]; simp
+  | succ n ih =>
+    intro bs r as h
+    simp only [many] at h
+    obtain ⟨a, r1, h1, h⟩ := run_bind_ok h
+    obtain ⟨as', r2, h2, h⟩ := run_bind_ok h
+    rw [run_pure_ok h]
+    intro x hx
+    simp only [List.mem_cons] at hx
+    cases hx with
+    | inl e => rw [e]; exact hd _ _ _ h1
+    | inr e => exact ih _ _ _ h2 x e
+
+theorem vec_all {d : Dec α} {P : α → Prop} (e : Err) (minsz n : Nat)
+    (hd : ∀ bs a r, Dec.run d bs = (.ok a, r) → P a) {bs r : Bytes} {as : List α}
+    (h : Dec.run (vec e minsz d n) bs = (.ok as, r)) : ∀ a ∈ as, P a := by
+  rw [vec] at h
+  obtain ⟨_, r1, _, h⟩ := run_bind_ok h
+  exact many_all hd n _ _ _ h
+
+theorem changeset_valid {bs r : Bytes} {c : Changeset} (h : Dec.run changeset bs = (.ok c, r)) :
+    ChangesetTextValid c := by
+  obtain ⟨t, _, _, h⟩ := run_bind_ok h
+  split at h
+  · obtain ⟨_, _, _, h⟩ := run_bind_ok h
+    obtain ⟨_, _, _, h⟩ := run_bind_ok h
+    rw [run_pure_ok h]; trivial
+  · obtain ⟨_, _, _, h⟩ := run_bind_ok h
+    obtain ⟨n, _, _, h⟩ := run_bind_ok h
+    obtain ⟨cs, _, hc, h⟩ := run_bind_ok h
+    obtain ⟨_, _, _, h⟩ := run_bind_ok h
+    obtain ⟨_, _, _, h⟩ := run_bind_ok h
+    obtain ⟨_, _, _, h⟩ := run_bind_ok h
+    rw [run_pure_ok h]
+    exact vec_all .eof changeMinBytes n (fun _ _ _ hx => change_valid hx) hc
+  · obtain ⟨_, _, _, h⟩ := run_bind_ok h
+    obtain ⟨_, _, _, h⟩ := run_bind_ok h
+    rw [run_pure_ok h]; trivial
+  · simp at h
+
+theorem changeV1_valid {bs r : Bytes} {c : ChangeV1} (h : Dec.run changeV1 bs = (.ok c, r)) :
+    ChangesetTextValid c.changeset := by
+  obtain ⟨_, _, _, h⟩ := run_bind_ok h
+  obtain ⟨cs, _, hc, h⟩ := run_bind_ok h
+  rw [run_pure_ok h]
+  exact changeset_valid hc
+
+theorem optStr_valid {bs r : Bytes} {o : Option Bytes} (h : Dec.run (opt str) bs = (.ok o, r)) :
+    OptTextValid o := by
+  rw [opt] at h
+  obtain ⟨f, _, _, h⟩ := run_bind_ok h
+  by_cases hf : f ≠ 0
+  · rw [if_pos hf] at h
+    obtain ⟨s, _, hs, h⟩ := run_bind_ok h
+    rw [run_pure_ok h]; exact str_valid hs
+  · rw [if_neg hf] at h
+    rw [run_pure_ok h]; trivial
 
 end Corro.Codec
